@@ -66,6 +66,8 @@ def cjx(j):
 
 
 def target_pty(name, pkg):
+    if name.startswith("("):
+        return name            # a type given directly in the pty grammar (union types of the hook fuzz stream)
     if name in pkg["classes"]:
         return "(PyCls %s)" % V.q(name)
     if name in pkg["enums"]:
@@ -107,11 +109,30 @@ def load_pkg(mmv=None):
 def run_cases(cases, tag, shard=250, workers=8, model=True):
     """Returns list of verdict codes per case (0 agree, 1 ok/raise, 2 graph, 3 unstructured, 4 not valid, 5 fuel) and the real results.
     model=False: only the real converter is run (the model is unavailable because a translator or coqc failed)."""
-    real = real_run(cases, STR_OF)
+    # str() of non-string values: the fixed palette plus every node of the fuzz inputs (cattrs coerces with str() wherever `str` is expected)
+    str_of, seen = list(STR_OF), {json.dumps(v, sort_keys=True) for v in STR_OF}
+
+    def nodes(v):
+        if isinstance(v, str):
+            return
+        k = json.dumps(v, sort_keys=True)
+        if k not in seen and len(seen) < 6000:
+            seen.add(k)
+            str_of.append(v)
+        if isinstance(v, list):
+            for x in v:
+                nodes(x)
+        elif isinstance(v, dict):
+            for x in v.values():
+                nodes(x)
+    for c in cases:
+        if c.get("kind") == "hook-fuzz":
+            nodes(c["input"])
+    real = real_run(cases, str_of)
     if not model:
         return [0] * len(cases), real["results"]
     pkg = json.load(open(os.path.join(V.GEN, "pkg.json")))
-    tbl = "; ".join("(%s, %s)" % (cj(v), V.q(s)) for v, s in zip(STR_OF, real["str_of"]))
+    tbl = "; ".join("(%s, %s)" % (cj(v), V.q(s)) for v, s in zip(str_of, real["str_of"]))
     rows = []
     for c, r in zip(cases, real["results"]):
         if r["ok"]:
@@ -122,10 +143,17 @@ def run_cases(cases, tag, shard=250, workers=8, model=True):
                     % (target_pty(c["target"], pkg), cj(c["input"]), exp, ("(Some %s)" % c["mmty"]) if c.get("mmty") else "None"))
     # remove stale shards of this tag
     os.makedirs(V.PROPS_OUT, exist_ok=True)
+    # the str() table is compiled once and shared by the shards (it can be large for the fuzz stream)
+    tblf = os.path.join(V.PROPS_OUT, "CasesTbl_%s.v" % tag)
+    V.write_if_changed(tblf, HDR % tbl)
+    rt = V.coqc(tblf)
+    if not rt.ok:
+        raise RuntimeError("cases table %s failed: %s" % (tblf, rt.text[-1500:]))
     files = []
     for i in range(0, len(rows), shard):
         f = os.path.join(V.PROPS_OUT, "Cases_%s_%d.v" % (tag, i // shard))
-        V.write_if_changed(f, HDR % tbl + "Definition cases : list case := [\n" + ";\n".join(rows[i:i + shard]) + "].\n"
+        V.write_if_changed(f, "From LSP Require Import Base MM Sem Corr.\nFrom Gen Require Import MMData PkgData.\nFrom Props Require Import CasesTbl_%s.\nOpen Scope string_scope.\n" % tag
+                           + "Definition cases : list case := [\n" + ";\n".join(rows[i:i + shard]) + "].\n"
                            "Eval vm_compute in (bad_cases mm Sg pystr %d cases).\n" % i)
         files.append(f)
     verdict = [0] * len(cases)
